@@ -154,7 +154,49 @@ def _embeddings(name, lang, code, top_only):
     c2, c3 = _rename_copy(code, 2), _rename_copy(code, 3)
     out.append(("twice", code + "\n\n" + c2, [0, n + 2]))
     out.append(("three-times", code + "\n\n" + c2 + "\n\n" + c3, [0, n + 2, 2 * (n + 2)]))
+    # the same example a second time under the SAME names: at module level and inside a function
+    out.append(("same-names-in-function", code + "\n\ndef wrapper_fn():\n" + _indent(code, 1), [0, n + 3]))
+    nested = _nest_in_own_loop(code)
+    if nested:
+        out.append(("nested-in-own-loop", nested[0], [0, nested[1]]))
+    names = _assigned_names(code)
+    if names:
+        other = "\n".join(f"{nm} = []" for nm in names) + "\n\n\ndef unrelated_collect(values):\n" + "".join(f"    {nm} = []\n    for value in values:\n        {nm} += [value]\n" for nm in names[:3]) + "    return values\n"
+        out.append(("beside-unrelated-modules", code, [0], {"aaa_first.py": other, "zzz_last.py": other}))
     return out
+
+
+def _assigned_names(code):
+    try:
+        tree = ast.parse(code)
+    except (SyntaxError, ValueError):
+        return []
+    names = []
+    for node in ast.walk(tree):
+        if isinstance(node, (ast.Assign, ast.AugAssign, ast.AnnAssign)):
+            for t in (node.targets if isinstance(node, ast.Assign) else [node.target]):
+                if isinstance(t, ast.Name) and t.id not in names and t.id.islower():
+                    names.append(t.id)
+    return names[:6]
+
+
+def _nest_in_own_loop(code):
+    """The example again (renamed) as the last statements of its own first `for` loop body.
+    -> (new code, line offset of the inner copy) or None when the example has no for loop."""
+    try:
+        tree = ast.parse(code)
+    except (SyntaxError, ValueError):
+        return None
+    loop = next((nd for nd in ast.walk(tree) if isinstance(nd, ast.For)), None)
+    if loop is None or not loop.body:
+        return None
+    last = max(getattr(nd, "end_lineno", 0) or 0 for nd in ast.walk(loop.body[-1]))
+    pad = " " * loop.body[0].col_offset
+    lines = code.split("\n")
+    base_ind = min((len(ln) - len(ln.lstrip()) for ln in lines if ln.strip()), default=0)
+    inner = [(pad + ln[base_ind:] if ln.strip() else ln) for ln in _rename_copy(code, 7).rstrip("\n").split("\n")]
+    new = lines[:last] + inner + lines[last:]
+    return "\n".join(new), last
 
 
 def _parses(lang, code) -> bool:
@@ -233,13 +275,15 @@ def run_item(item) -> Acc:
     exp_lines = [ln for ln in (e.get("expected_lines") or []) if isinstance(ln, int)]
     nlines = code.count("\n")
     fails = []
-    for emb, new_code, offsets in embeds:
+    for emb, new_code, offsets, *more in embeds:
         if new_code is not None and not _parses(lang, new_code):
             acc.stat("embedding_skipped_not_parseable")
             continue
         fs = dict(files)
         if new_code is not None:
             fs[main] = new_code
+        if more:
+            fs.update(more[0])
         vs, r = _lint(name, fs, cfg, cross)
         acc.case()
         acc.edge()
